@@ -243,6 +243,9 @@ type CaseC15 struct {
 	// AddInputWithOptions(..., WithNoDirectDependency()) plus a separate AddDependency
 	NDStart bool `json:"ndstart,omitempty"`
 	NDP1    bool `json:"ndp1,omitempty"`
+	// SuccOK: the successor node is added with WithOutputKey (END then takes that key); its input is assembled by
+	// the same field mappings
+	SuccOK bool `json:"succok,omitempty"`
 }
 
 var fromStruct = [][]string{nil, {"A"}, {"B"}, {"In"}, {"In", "S"}, {"In", "N"}, {"PIn"}, {"PIn", "S"}, {"M"}, {"M", "k"}, {"M", "j"}, {"M", "k", "j"}, {"M", "k", "S"}, {"MS"}, {"MS", "k"}, {"Any"}, {"Any", "S"}, {"Any", "k"}, {"L"}, {"Zz"}, {"hidden"}}
@@ -313,6 +316,7 @@ func genC15(t *rapid.T) CaseC15 {
 	c.Split = rapid.Bool().Draw(t, "split")
 	c.NDStart = rapid.IntRange(0, 2).Draw(t, "ndStart") == 0
 	c.NDP1 = rapid.IntRange(0, 2).Draw(t, "ndP1") == 0
+	c.SuccOK = rapid.IntRange(0, 3).Draw(t, "succOutputKey") == 0
 	return c
 }
 
@@ -549,10 +553,14 @@ func build15[S, D any](c CaseC15, order []int, srcVal S) *wf15 {
 	wf.AddLambdaNode("p1", compose.InvokableLambda(func(ctx context.Context, in S) (map[string]any, error) {
 		return c.Src.buildMap(), nil
 	})).AddInput(compose.START)
+	var succOpts []compose.GraphAddNodeOpt
+	if c.SuccOK {
+		succOpts = append(succOpts, compose.WithOutputKey("o"))
+	}
 	succ := wf.AddLambdaNode("succ", compose.InvokableLambda(func(ctx context.Context, in D) (string, error) {
 		captured = append(captured, in)
 		return "ok", nil
-	}))
+	}), succOpts...)
 	usesP1 := false
 	if c.Split {
 		for _, i := range order {
@@ -591,7 +599,11 @@ func build15[S, D any](c CaseC15, order []int, srcVal S) *wf15 {
 		}
 	}
 	_ = usesP1
-	wf.End().AddInput("succ")
+	if c.SuccOK {
+		wf.End().AddInput("succ", compose.FromField("o"))
+	} else {
+		wf.End().AddInput("succ")
+	}
 	r, err := wf.Compile(context.Background())
 	if err != nil {
 		out.compileErr = err
